@@ -506,6 +506,14 @@ func vfAclOracles(t *vfTW, pre *vfTopicSnap, op vfAclOp, code int, frames map[st
 			bad("C07:subscription-removed-unauthorised", fmt.Sprintf("%s removed the subscription of %s (actor effective %s)", op, u, effA))
 		}
 	}
+	// C10: the cached count of a user's online sessions equals the attached (foreground) sessions
+	for u, n := range post.Online {
+		if n != len(post.Attached[u]) || n < 0 {
+			if pre.Online[u] == len(pre.Attached[u]) {
+				bad("C10:online-count:grp:"+op.Kind, fmt.Sprintf("after %s the topic counts %d online sessions of %s, attached: %v", op, n, u, post.Attached[u]))
+			}
+		}
+	}
 	// attachment requires a live subscription whose grant has J
 	for u, l := range post.Attached {
 		if len(l) == 0 {
@@ -552,6 +560,8 @@ func TestVerifC06Acl(t *testing.T) { vfXSearch(t, "C06", "acl", vfAclModelName()
 func TestVerifC07Acl(t *testing.T) { vfXSearch(t, "C07", "acl", vfAclModelName()) }
 func TestVerifC08Acl(t *testing.T) { vfXSearch(t, "C08", "acl-direct", vfAclModelName()) }
 func TestVerifC14Acl(t *testing.T) { vfXSearch(t, "C14", "acl", vfAclModelName()) }
+func TestVerifC10Acl(t *testing.T) { vfXSearch(t, "C10", "acl", vfAclModelName()) }
+func TestVerifC10P2P(t *testing.T) { vfXSearch(t, "C10", "p2p", vfP2PModelName()) }
 func TestVerifC08AclFault(t *testing.T) { vfXSearch(t, "C08", "acl-fault", vfAclModelName()+"-fault") }
 func TestVerifC06AclFault(t *testing.T) { vfXSearch(t, "C06", "acl-fault", vfAclModelName()+"-fault") }
 func TestVerifC13AclFault(t *testing.T) { vfXSearch(t, "C13", "acl-fault", vfAclModelName()+"-fault") }
